@@ -9,6 +9,10 @@ Ops
                          `ok | err:mismatch | err:unsupported | err:other | panic | parse-err`
 * `dflip BYTES BIT`    — the same on BYTES with bit BIT flipped (bit 0 = most significant bit of byte 0)
 * `hashx ALGO BYTES`   — hex digest (`md5 | sha1 | sha256`): the driver's own implementation against the Rust crate
+* `digmem03 V BYTES K` — `verify_digests()` on the UN-REPARSED value `build()` / `build_and_sign()` returned (V = `b<i>` /
+                         `s<i>`), K = `-` or a bit of `content` flipped in memory; BYTES = what the unflipped value writes.
+                         Observation `<class> same=<bool>`. Predicted "same as parse": the model parses BYTES (bit flipped at
+                         payload offset·8 + K), `same=true`; the spec judges the class on those bytes like `dflip`.
 * `hashselftest`       — `ok` when the driver's hash functions reproduce the fixed `hashlib` vectors
 
 Model observation = `verifyDigests` with the driver's hash functions on the model's parse of the bytes.
@@ -17,7 +21,7 @@ the raw byte ranges (`recomputeRaw`) — `dontcare` inside `DigestSpec.dontcare`
 namespace RpmVerif.Driver.C03
 open RpmVerif.Hdr RpmVerif.Driver RpmVerif.DigestSpec
 
-def ops : List String := ["digests", "dflip", "hashx", "hashselftest"]
+def ops : List String := ["digests", "dflip", "hashx", "hashselftest", "digmem03"]
 
 def realH : Hashes := ⟨Hash.md5L, Hash.sha1L, Hash.sha256L⟩
 
@@ -76,6 +80,22 @@ def handle (op : String) (args : List String) (impl : String) : String :=
     match bytesOfHex hb, bit.toNat? with
     | some bs, some k => judgeCase "flip" (flipBit bs k) impl
     | _, _ => badReq "args"
+  | "digmem03", [v, hb, k] =>
+    match bytesOfHex hb with
+    | some bs =>
+      let bs' : Option Bytes := if k == "-" then some bs else
+        match k.toNat?, parsePackage bs with
+        | some bit, .ok p => some (flipBit bs ((bs.length - p.content.length) * 8 + bit))
+        | _, _ => none
+      match bs' with
+      | some b =>
+        let implCls := (impl.splitOn " ").getD 0 ""
+        let tag := (if v.startsWith "s" then "mem-signed" else "mem-built") ++ (if k == "-" then "" else "-flip")
+        match (judgeCase tag b implCls).splitOn " | " with
+        | [m, vd, br] => answer (m ++ " same=true") vd br
+        | _ => badReq "judge"
+      | none => badReq "args"
+    | none => badReq "hex"
   | "hashx", [algo, hb] =>
     match bytesOfHex hb with
     | some bs =>
